@@ -172,4 +172,11 @@ impl Prop for C02 {
             Err(f) => Outcome::failed(f),
         }
     }
+    #[cfg(not(vcheck_heap_backend))]
+    fn extra(tier: Tier, seed: u64, ev: &mut ExtraEvidence) -> Vec<Violation> {
+        if tier != Tier::Thorough {
+            return Vec::new();
+        }
+        heap_backend_extra("C02", seed, ev)
+    }
 }
